@@ -155,6 +155,11 @@ def weave(repo, units, extra_cfg='kani'):
         for a in u.anchors:
             if not find_fn(src, a):
                 raise Undecided(u.name, f'LOST-ANCHOR fn {a} not found in {u.weave}')
+        # parameter keys the harness puts into the accessor side tables must still be the keys the code uses
+        hsrc = open(u.path).read()
+        for key in sorted(set(re.findall(r'\bt_(?:series|real|flag|natural)\(\s*&mut \w+,\s*"([^"]+)"', hsrc))):
+            if f'"{key}"' not in src:
+                raise Undecided(u.name, f'LOST-ANCHOR parameter key "{key}" (stored by the constructor, read at run time) no longer appears in {u.weave}')
         files[path] = src
     # contract attributes
     used_contract_files = set(u.weave for u in units)
